@@ -30,7 +30,7 @@ func (b *simLogBatch) first() int64 { return b.Offs[0] }
 func (b *simLogBatch) last() int64  { return b.Offs[len(b.Offs)-1] }
 
 type simFetchPlan struct {
-	Kind      string `json:"kind"` // ok | err | silence | drop | throttled | missing
+	Kind      string `json:"kind"` // ok | err | silence | drop | throttled | throttled_data | missing
 	Code      int    `json:"code"` // KError for kind err
 	MoveTo    int32  `json:"moveTo"`
 	DelayMs   int    `json:"delayMs"`
@@ -303,6 +303,9 @@ func (c *simCluster) handleFetch(b *simBroker, r *FetchRequest) (encoderWithHead
 		pt.fetchN++
 		plan := c.fetchPlans[fmt.Sprintf("%d:%d", p, pt.fetchN)]
 		if plan == nil {
+			plan = c.fetchPlans[fmt.Sprintf("%d:*", p)] // applies to every fetch of the partition without a plan of its own
+		}
+		if plan == nil {
 			plan = &simFetchPlan{Kind: "ok"}
 		}
 		if plan.Hold {
@@ -323,11 +326,19 @@ func (c *simCluster) handleFetch(b *simBroker, r *FetchRequest) (encoderWithHead
 	if maxDelay > 0 {
 		time.Sleep(time.Duration(maxDelay) * time.Millisecond)
 	}
+	throttleData := false
 	c.mu.Lock()
 	for _, pd := range pend {
 		p, plan, blk := pd.part, pd.plan, pd.blk
 		pt := c.parts[p]
 		ev := kv{"part": int(p), "off": int(blk.fetchOffset), "max": int(blk.maxBytes), "n": pd.n, "broker": int(b.idx), "kind": plan.Kind, "ver": int(r.Version)}
+		if plan.Kind == "throttled_data" {
+			// a broker enforcing a quota: the response carries a throttle time AND the data
+			throttleData = true
+			cp := *plan
+			cp.Kind = "ok"
+			plan = &cp
+		}
 		switch plan.Kind {
 		case "silence":
 			action = "silence"
@@ -443,6 +454,9 @@ func (c *simCluster) handleFetch(b *simBroker, r *FetchRequest) (encoderWithHead
 		return nil, "drop"
 	case "throttled":
 		return &simFetchResponse{ver: r.Version, throttle: 50}, ""
+	}
+	if throttleData {
+		resp.throttle = 35
 	}
 	if !anyData {
 		// long poll: nothing to return yet
